@@ -126,6 +126,9 @@ class Baudrate:
         elif self.baudtype == self.Type.Identifier:
             baudtype_str = 'Defined by identifier'
 
+        if self.baudtype == self.Type.Identifier and self.baudrate not in self.baudrate_map.values():
+            return 'Custom baudrate identifier 0x%02x, %s format.' % (self.baudrate, baudtype_str)
+
         return '%sBauds, %s format.' % (str(self.effective_baudrate()), baudtype_str)
 
     def __repr__(self):
